@@ -279,6 +279,12 @@ class Ctx:
         self.assumptions = []
         self.findings = load_findings(prop)
         self.open_findings = [f for f in self.findings if f.get("status") == "open"]
+        # /repo may be temporarily mutated by fault experiments (vlib/repo_lock.sh holds the lock
+        # exclusively); a normal check run holds it shared so it never sees a half-applied change.
+        if not os.environ.get("SAMVERIF_HAVE_REPO_LOCK"):
+            os.makedirs(os.path.join(VERIF, ".locks"), exist_ok=True)
+            self._repo_lock = open(os.path.join(VERIF, ".locks", "repo"), "w")
+            fcntl.flock(self._repo_lock, fcntl.LOCK_SH)
         os.makedirs(os.path.join(VERIF, "evidence"), exist_ok=True)
         os.makedirs(os.path.join(VERIF, "replays"), exist_ok=True)
 
